@@ -105,7 +105,7 @@ def judge(ctx, rows, timeout=3000):
     for r, (src, span), o in zip(rows, progs, outs):
         st["judged"] += 1
         ob = o.get("obs", {})
-        tags = ["off:" + r["off"], "stmt-ctx:" + r["stmt"].strip().split("<NL>")[-1][:40], "expr-ctx:" + r["inner"], "depth:" + str(r["depth"])]
+        tags = ["off:" + r["off"], "stmt-ctx:" + r["stmt"].strip().split("<NL>")[-1][:40], "expr-ctx:" + r["inner"], "depth:" + str(r["depth"])] + (["in-fstring-hole"] if r.get("infstr") else [])
         payload = {"offender": r["off"], "src": src, "span": list(span)}
         if "crash" in o or "panic" in ob:
             ctx.fail("hole:checker-panic", dict(payload, panic=ob.get("panic") or str(o)[:300]), tags=tags)
